@@ -458,7 +458,8 @@ pub fn gen(prop: &str, seed: u64, index: u64, _tier: Tier) -> Case {
                 params.insert("error".into(), k);
             }
             let a = analyze(&p);
-            let (inputs, recursive) = gen::gen_inputs(&mut prng, &a, false);
+            // overlapping inputs as well (the same file named twice, a file and its directory)
+            let (inputs, recursive) = gen::gen_inputs(&mut prng, &a, true);
             match shape {
                 0..=4 | 7 | 8 => {
                     ops.push(run_op(&mut rng, ModeS::Build, &inputs, recursive, true, "build"));
@@ -898,7 +899,11 @@ fn oracle_c07(case: &Case, h: &Hist, ctx: &mut Ctx, out: &mut CaseOutcome, case_
         let a = analyze(&p_before);
         let gen = a.gen_all();
         ctx.stats.nontrivial.insert(mix(&[case_hash, r.op_index as u64]));
-        if !r.sim.verdict.is_ok() {
+        let resolvable = matches!(
+            gen::r_inputs(&p_before, &a, &r.cfg.base, &r.cfg.inputs, r.cfg.recursive),
+            Resolved::Sources(_)
+        );
+        if !r.sim.verdict.is_ok() && resolvable {
             out.violate(
                 "C07",
                 "clean-failed",
